@@ -670,7 +670,7 @@ fn run(args: &Args) -> i32 {
 
     let mut units: Vec<Unit> = vec![];
     let mut smalls = small_files();
-    let n_small_rand = args.bound("small_random", 48, 600) / reduce;
+    let n_small_rand = args.bound("small_random", 96, 1200) / reduce;
     for i in 0..n_small_rand {
         smalls.push(random_small(&mut Rng::derive(args.seed, &[26, 0, i]), i));
     }
@@ -701,8 +701,8 @@ fn run(args: &Args) -> i32 {
     for i in 0..n_part {
         units.push(Unit::Partitioner(i));
     }
-    let n_e2e_sys = args.bound("e2e_systematic", 192, 960) / reduce;
-    let n_e2e_rand = args.bound("e2e_random", 1000, 12_000) / reduce;
+    let n_e2e_sys = args.bound("e2e_systematic", 384, 960) / reduce;
+    let n_e2e_rand = args.bound("e2e_random", 2400, 24_000) / reduce;
     if args.stage != "miri" {
         for c in e2e_cases(n_e2e_sys, n_e2e_rand, args.seed) {
             units.push(Unit::E2e(c));
